@@ -381,10 +381,10 @@ def check_pair_cases(ctx, out, cases, kind_for_model="corr"):
                 continue
             # (1) reported score = independently recomputed score of the returned path
             if ps is None or abs(float(ps) - score) > _tol(score):
-                if ps is not None and opt is not None and abs(float(opt) - score) <= _tol(score) and float(opt - ps) > _tol(score):
+                if opt is not None and abs(float(opt) - score) <= _tol(score) and (ps is None or float(opt - ps) > _tol(score)):
                     # the score is the optimum but the alignment handed back is a worse path
                     sig = f"pw:returned-path-below-reported-optimal-score:{mode}:{algo}"
-                    what = "reported score is the optimum but the returned alignment is a lower-scoring path"
+                    what = "reported score is the optimum but the returned alignment is a lower-scoring (or impossible, -inf) path"
                 else:
                     sig = f"pw:score-ne-path:{mode}:{algo}"
                     what = "reported score differs from the recomputed score of the returned alignment"
@@ -638,19 +638,22 @@ def run_p2m(ref, pairs, moltype="dna"):
 
 
 def classify_p2m(ref, pairs, k):
-    """narrow class of a 'pairwise alignment not kept' failure for pair k: does a column that has to be injected into
-    row k (a reference gap contributed by another pair) fall strictly inside a gap run of row k?"""
-    from cogent3.app import align as A
-
+    """narrow class of a 'pairwise alignment not kept' failure for pair k, computed from the rows alone (not with the
+    code under test): does a column that has to be injected into row k (a reference gap that is longer in another
+    pair) fall strictly inside a gap run of row k?"""
     union = {}
     for r1, _ in pairs:
-        union = A._merged_gaps(union, row_gaps(r1))
+        for p, l in row_gaps(r1).items():
+            union[p] = max(union.get(p, 0), l)
     r1, r2 = pairs[k]
-    diff = A._combined_refseq_gaps(row_gaps(r1), union)
+    own = row_gaps(r1)
+    col_of = [c for c, ch in enumerate(r1) if ch != "-"] + [len(r1)]
     inside = False
-    for col in diff:
-        if 0 < col < len(r2) and r2[col] == "-" and r2[col - 1] == "-":
-            inside = True
+    for p, l in union.items():
+        if l > own.get(p, 0):
+            col = col_of[p]
+            if 0 < col < len(r2) and r2[col] == "-" and r2[col - 1] == "-":
+                inside = True
     return "injected-column-inside-other-gap" if inside else "other"
 
 
@@ -861,7 +864,7 @@ def spec_check(ctx, budget):
 
     if getattr(ctx, "driver", None) is not None:
         maxlen = 30 if not ctx.thorough else 60
-        check_pair_cases(ctx, out, gen_pair_cases(rng, 70 * budget, maxlen), kind_for_model="corr")
+        check_pair_cases(ctx, out, gen_pair_cases(rng, 150 * budget, maxlen), kind_for_model="corr")
         # length-0 stream: informational
         for s1, s2, local in [("", "ACG", False), ("ACG", "", True), ("", "", False)]:
             r = run_pairwise(s1, s2, "dna", [[1 if a == b else -1 for b in DNA] for a in DNA], 5, 1, local, 10**8)
@@ -869,16 +872,16 @@ def spec_check(ctx, budget):
     else:
         ctx.notes.append("driver unavailable: pairwise optimality checks skipped")
     # exhaustive small p2m domain: ref of length 2, two pairs with <=1 gap run each is covered by the random stream; plus seeded random
-    p2m_checks(ctx, out, rng, 500 * budget)
+    p2m_checks(ctx, out, rng, 1000 * budget)
     # apps
-    for _ in range(12 * budget):
+    for _ in range(40 * budget):
         k = rng.randint(3, 6)
         seqs = gen_seq_family(rng, k, 14)
         triple = None if rng.random() < 0.5 else rng.choice([(10, -1, -8), (5, -4, -4), (2, -1, -1)])
         d, e = rng.choice([(20, 2), (10, 2), (5, 1), (2, 1)])
         ref = "longest" if rng.random() < 0.5 else rng.choice(sorted(seqs))
         check_align_to_ref(out, seqs, ref, triple, d, e)
-    for _ in range(4 * budget):
+    for _ in range(10 * budget):
         k = rng.randint(3, 6)
         seqs = gen_seq_family(rng, k, 14)
         tree = None if rng.random() < 0.5 else _caterpillar(seqs, rng)
